@@ -5,7 +5,7 @@ from .. import gen
 from ..common import Names, rat, run_impl
 
 PROP = "C19"
-LEAN_MODULE = "VK.Props.C19Graph"
+LEAN_MODULE = "VK.Check.C19"
 THEOREMS = [
     "VK.C19_symm",
     "VK.C19_zero_iff",
